@@ -345,9 +345,14 @@ class Unit:
         parts = [p.strip() for p in rest.split('|')]
         file, container, name = parts[0], parts[1], parts[2]
         props = self.props
+        deflabel = None
         for p in parts[3:]:
             if p.startswith('props='):
                 props = p[6:].split(',')
+            if p.startswith('label='):
+                # name and properties of the function's obligation when its contract lives in a trait-level spec (SpecImpl): an
+                # otherwise unlabelled failure of this function is reported under it
+                deflabel = parse_label('//: ' + p[6:].strip())
         s, f = self._locate_fn(file, container, name)
         where = '%s:%d' % (file, s.line_of(f['kw']))
         secs = self._sections(block)
@@ -392,7 +397,7 @@ class Unit:
             else:
                 raise ExtractError('%s:%d: unknown section %s' % (base, tline, h))
         qual = (container + '::' if container not in ('-', '') else '') + name
-        finfo = dict(name=name, qual=qual, file=file, line=s.line_of(f['kw']), props=props, clauses=[])
+        finfo = dict(name=name, qual=qual, file=file, line=s.line_of(f['kw']), props=props, clauses=[], deflabel=deflabel)
         if not sites:
             self.functions.append(finfo)
         fnkey = name
